@@ -4,3 +4,6 @@ import checks_board
 CHECKS = {}
 for _p in ("C01", "C02", "C03", "C04", "C05", "C09", "C10"):
     CHECKS[_p] = checks_board.run
+
+import checks_misc
+CHECKS["C12"] = checks_misc.c12
